@@ -50,6 +50,14 @@ def segmentsFuel (lookahead : Bool) (mtu : Nat) : Nat → Bool → Bytes → Lis
 def segments (lookahead : Bool) (mtu : Nat) (data : Bytes) : List Seg :=
   if 0 < mtu then segmentsFuel lookahead mtu data.length true data else []
 
+/-- `NextSegment` limits the segment size to `MaxSegmentMtu` whatever the peer declared
+(`cap = 0`: the code has no such limit). -/
+def effMtu (cap mtu : Nat) : Nat := if cap = 0 then mtu else min mtu cap
+
+/-- The train the sender emits for a peer-declared segment size `mtu`. -/
+def segmentsCapped (lookahead : Bool) (cap mtu : Nat) (data : Bytes) : List Seg :=
+  segments lookahead (effMtu cap mtu) data
+
 /-! ### Spec (independent of the model): what the property demands of a segment train -/
 
 def concatData : List Seg → Bytes
